@@ -175,7 +175,7 @@ def build_stream(name, log):
     if st.get('daemon'):
         # package main of a daemon in /repo, turned into a harness by an overlay init()
         cwd = REPO
-        env['GOFLAGS'] = '-mod=mod'
+        env['GOFLAGS'] = ''
         cmd += ['-o', out, st['daemon']]
     else:
         cmd += ['-o', out, st['pkg']]
